@@ -148,7 +148,7 @@ class SRTWriter(BaseWriter):
 
     def _recreate_line(self, srt, line):
         if line.type_ == CaptionNode.TEXT:
-            return srt + f'{line.content} '
+            return srt + f'{line.content}'
         elif line.type_ == CaptionNode.BREAK:
             return srt + '\n'
         else:
